@@ -149,3 +149,150 @@ def slots_match_limit(t, rid):
         cl, mc = fmt(t.field_of_aggr(a, "clients")), fmt(t.field_of_aggr(a, "max_clients"))
         if mc not in cl: r.bad("new|mismatch", a, f"new(): slots built from {cl[:60]} but max_clients = {mc[:40]}")
     return r
+
+
+def _elem_index(o):
+    """index expression text of the pending_acks element an origin expression refers to (through Vec::index / index_mut), else None"""
+    found = []
+    def walk(x):
+        if isinstance(x, tuple):
+            if x and x[0] == "call" and method_of(x[1]) in ("index", "index_mut") and len(x[2]) == 2 and fmt(x[2][0]).endswith("pending_acks"): found.append(fmt(x[2][1]))
+            for y in x:
+                if isinstance(y, tuple): walk(y)
+    walk(o)
+    return found[0] if found else None
+
+
+def _plus_one(o):
+    """if origin o is (X AddWithOverflow 1).0 return X else None"""
+    o = strip(o)
+    if isinstance(o, tuple) and o[0] == "field" and o[2] == "0":
+        b = strip(o[1])
+        if isinstance(b, tuple) and b[0] == "bin" and b[1].startswith("Add") and const_eval(b[3]) == 1: return b[2]
+    return None
+
+
+def range_algebra(t, rid):
+    """RANGE-ALGEBRA: the set of sequences covered by pending_acks changes only by adding the received sequence or by trimming at the
+    acknowledged horizon. Each store to a range bound must have the guard that makes it exactly that:
+      start := s        behind  start == s + 1          (extend left by the received sequence)
+      end   := s + 1    behind  end == s                (extend right by the received sequence)
+      end   := other.end behind end == other.start, other removed afterwards   (merge of exactly adjacent ranges)
+      start := a + 1    behind  !(a < start)            (trim at the acked horizon: only ever shrinks)
+    new ranges are s..s+1; an insert before element i needs `element i .start > s + 1`; a sequence already inside a range changes nothing."""
+    r = RuleResult(rid, "pending_acks covers exactly what was received: every change of a range bound is guarded so that it adds only the received sequence, merges only adjacent ranges, or trims at the acked horizon", floor=8)
+    for f in (t.fn("RenetClient::add_pending_ack"), t.fn("RenetClient::acked_largest")):
+        cmps = [(br, br["cond"][1], br["cond"][2], br["cond"][3]) for br in t.branches(f) if br["kind"] == "bool" and br["cond"][0] == "cmp"]
+        def guard(kind, elem_idx, fld, other):
+            """is there a comparison `elem.fld <op> other` (either orientation) whose edge implying `kind` dominates bb? returns list of edges"""
+            edges = []
+            for br, op, a, b in cmps:
+                for (x, y, o) in ((a, b, op), (b, a, MIRROR[op])):
+                    ex = _elem_index(x)
+                    if ex != elem_idx or not fmt(strip(x)).endswith("." + fld): continue
+                    if not other(y): continue
+                    if kind == "eq":
+                        if o == "Eq": edges.append(br["t_edge"])
+                        elif o == "Ne": edges.append(br["f_edge"])
+                    elif kind == "le":     # elem.fld <= y
+                        if o == "Le": edges.append(br["t_edge"])
+                        elif o == "Gt": edges.append(br["f_edge"])
+                    elif kind == "gt":
+                        if o == "Gt": edges.append(br["t_edge"])
+                        elif o == "Le": edges.append(br["f_edge"])
+            return edges
+        for s in t.stores_like(r"pending_acks.*\.(start|end)$", f):
+            pl = t.place(s); fld = fmt(pl).rsplit(".", 1)[1]; ei = _elem_index(pl)
+            v = strip(t.stored(s)); vt = fmt(v)
+            r.site(s, f"{fld} := {vt[-50:]}")
+            p1 = _plus_one(v)
+            ok, why = False, ""
+            if fld == "start" and isinstance(v, tuple) and v[0] == "param":
+                ok = any(t.edge_dominates(f, e, s.bb) for e in guard("eq", ei, "start", lambda y: _plus_one(y) is not None and same(_plus_one(y), v)))
+                why = "start lowered to the received sequence without the test `start == sequence + 1`: the range would swallow sequences that never arrived"
+            elif fld == "start" and p1 is not None and isinstance(strip(p1), tuple) and strip(p1)[0] == "param":
+                ok = any(t.edge_dominates(f, e, s.bb) for e in guard("le", ei, "start", lambda y: same(y, p1)))
+                why = "start set to horizon + 1 without the test `start <= horizon`: the range can be stretched down over sequences that never arrived"
+            elif fld == "end" and p1 is not None and isinstance(strip(p1), tuple) and strip(p1)[0] == "param":
+                ok = any(t.edge_dominates(f, e, s.bb) for e in guard("eq", ei, "end", lambda y: same(y, p1)))
+                why = "end raised to sequence + 1 without the test `end == sequence`"
+            elif fld == "end" and vt.endswith(".end") and _elem_index(v) not in (None, ei):
+                oi = _elem_index(v)
+                ok = any(t.edge_dominates(f, e, s.bb) for e in guard("eq", ei, "end", lambda y: _elem_index(y) == oi and fmt(strip(y)).endswith(".start")))
+                rem = [c for c in t.effects("pending_acks", {"remove"}, f) if fmt(t.arg(c, 1)) == oi]
+                ok = ok and any(f.dominates(s.bb, c.bb) or must_pass(f, pos(s), {pos(c)})[0] for c in rem)
+                why = "ranges merged without the test `left.end == right.start` (exactly adjacent) followed by removal of the right one: a gap between them would be acknowledged"
+            else:
+                why = f"unexpected value for a range bound: {vt[-60:]}"
+            if not ok: r.bad(f"{f.path}|{fld}|{'param' if isinstance(v, tuple) and v[0]=='param' else ('plus1' if p1 is not None else 'other')}", s, why)
+        if f.path.endswith("add_pending_ack"):
+            for g in t.effects("pending_acks", {"insert", "push"}, f):
+                val = strip(t.arg(g, 2 if method_of(callee_name(g.node)) == "insert" else 1))
+                r.site(g, method_of(callee_name(g.node)))
+                good = isinstance(val, tuple) and val[0] == "aggr" and str(val[1]).endswith("Range") and isinstance(strip(val[3][0]), tuple) and strip(val[3][0])[0] == "param" and _plus_one(val[3][1]) is not None and same(_plus_one(val[3][1]), val[3][0])
+                if not good: r.bad(f"{f.path}|new-range", g, f"new range is {fmt(val)[-60:]}, expected sequence..sequence+1")
+                if method_of(callee_name(g.node)) == "insert" and good:
+                    at = fmt(t.arg(g, 1)); sq = strip(val[3][0])
+                    if not any(t.edge_dominates(f, e, g.bb) for e in guard("gt", at, "start", lambda y: _plus_one(y) is not None and same(_plus_one(y), sq))):
+                        r.bad(f"{f.path}|insert-guard", g, "range inserted before element i without the test `element i .start > sequence + 1`: the list would no longer be sorted / non-adjacent")
+            # duplicate test: a sequence already covered changes nothing. contains(&elem, &sequence) (or start <= s && s < end) with an effect-free true edge dominating every change in the loop
+            dup = [br for br in t.find_callcond(f, r"Range.*::contains$|<Idx>::contains$") if _elem_index(br["cond"][2][0]) is not None]
+            changes = list(t.stores_like(r"pending_acks.*\.(start|end)$", f)) + [g for g in t.effects("pending_acks", {"insert"}, f)]
+            if not dup: r.bad(f"{f.path}|dup-test", None, "no `range.contains(&sequence)` test: a duplicate of an already covered sequence would be added again (overlapping ranges)")
+            for br in dup:
+                r.site(Site(f, br["bb"], 0, f.blocks[br["bb"]]["term"]), "duplicate test")
+                if not t.edge_effect_free(f, br["t_edge"]): r.bad(f"{f.path}|dup-effect", None, "an already covered sequence still changes pending_acks")
+                for c in changes:
+                    if not t.edge_dominates(f, br["f_edge"], c.bb): r.bad(f"{f.path}|dup-dom", c, "pending_acks changed on a path that skipped the `already covered` test")
+    return r
+
+
+def aead_open_rule(t, rid):
+    """the two `open` primitives return Ok only when the AEAD tag verified: every value returned as Ok is the AEAD decrypt call's own result, or
+    lies behind its Ok edge (no shortcut that skips tag verification, e.g. for empty bodies)"""
+    r = RuleResult(rid, "dencrypted_in_place{,_xnonce} return Ok only through the AEAD tag verification (no path returns Ok without decrypt_in_place_detached succeeding)", floor=2)
+    for name in ("renetcode::crypto::dencrypted_in_place", "renetcode::crypto::dencrypted_in_place_xnonce"):
+        f = t.fn(name)
+        dec = list(t.calls(r"AeadInPlace>::decrypt_in_place(_detached)?$|::decrypt_in_place(_detached)?$", f))
+        for c in dec: r.site(c, short(callee_name(c.node)))
+        if not dec: r.bad(f"{name}|no-aead", None, "no AEAD decrypt call found"); continue
+        okedges = [t.result_edges(f, c)[0] for c in dec if t.result_edges(f, c)]
+        for b in f.blocks:
+            if b["i"] not in f.reach: continue
+            for k, st in enumerate(b["stmts"]):
+                if st["k"] == "assign" and st["place"]["local"] == 0 and not st["place"]["proj"]:
+                    o = f._origin_of_def(st, 0)
+                    if isinstance(o, tuple) and o[0] == "aggr" and o[2] == "Err": continue
+                    if isinstance(o, tuple) and o[0] == "call" and "decrypt_in_place" in o[1]: continue
+                    if any(t.edge_dominates(f, e, b["i"]) for e in okedges): continue
+                    r.bad(f"{name}|ok-without-tag", Site(f, b["i"], k, st), f"returns {fmt(o)[:50]} on a path that did not verify the authentication tag")
+            tm = b["term"]
+            if tm["k"] == "call" and tm["dest"]["local"] == 0 and not tm["dest"]["proj"] and "decrypt_in_place" not in callee_name(tm) and "from_residual" not in callee_name(tm):
+                r.bad(f"{name}|ret-call", Site(f, b["i"], len(b["stmts"]), tm), f"result comes from {short(callee_name(tm))}, not from the AEAD decrypt call")
+    return r
+
+
+def capacity_rule(t, rid):
+    """request-time capacity: a connection request is denied exactly when the number of CONNECTED clients has reached max_clients (half-open
+    sessions do not count: an honest client retrying its request must get its challenge again while a slot is free)"""
+    NS = "server::NetcodeServer"
+    r = RuleResult(rid, "request-time capacity test: denied iff connected clients >= max_clients (connected count only), ConnectionDenied sent, no pending session created", floor=1)
+    h = t.fn("NetcodeServer::handle_connection_request")
+    def connected_count(a):
+        a = strip(a)
+        if not (isinstance(a, tuple) and a[0] == "call"): return False     # a sum / difference of counts is not the connected count
+        txt = fmt(a)
+        return ("::count(" in txt and "clients" in txt and "flatten" in txt and "pending" not in txt) or a[1].endswith("NetcodeServer::connected_clients")
+    full = list(rel_edges(t, h, connected_count, lambda b: t.is_field(b, "max_clients"), "Ge"))
+    anycap = [br for br in t.branches(h) if br["kind"] == "bool" and br["cond"][0] == "cmp" and ("max_clients" in fmt(br["raw"]))]
+    for br in anycap:
+        r.site(Site(h, br["bb"], 0, h.blocks[br["bb"]]["term"]), fmt(br["raw"])[:90])
+        if not any(b is br for e, b in full): r.bad("cap-shape", Site(h, br["bb"], 0, h.blocks[br["bb"]]["term"]), f"capacity test is {fmt(br['raw'])[:100]}: expected `connected clients >= max_clients` on the connected count alone")
+    if not anycap: r.bad("cap-missing", None, "no capacity test against max_clients in handle_connection_request")
+    for e, br in full:
+        other = br["f_edge"] if e == br["t_edge"] else br["t_edge"]
+        den = [a for a in t.aggrs("renetcode::packet::Packet", "ConnectionDenied", h) if a.bb in t.region_from(h, e)]
+        if not den: r.bad("cap-denied", None, "full server does not answer ConnectionDenied")
+        grow = [g for g in t.effects("pending_clients", {"entry", "insert"}, h)]
+        if any(not t.edge_dominates(h, other, g.bb) for g in grow): r.bad("cap-dom", None, "pending session created although the server is full")
+    return r
